@@ -61,6 +61,49 @@
       iteration that the variable still holds the list it started with (else `Res.abort`): Python iterates over the live list;
     * `list(x)`, `str.strip()` (all of `str.isspace()`, the shared `strip`), `str.split(c)` / `str.index(c)` for one character,
       `str.isupper()` (ASCII), `sep.join(list of texts)`.
+
+  Extension for a class derived from `list` with fields and methods that call each other (`Tags.TagCollection`; the tie is
+  `Props/C18Code.lean`).  Further assumptions:
+
+    * an object of such a class is `obj fields` too: the list it IS sits under the reserved name `listPart` (no Python
+      attribute can be called `[list]`); `list.__init__(self)`, `list.append(self, x)`, `list.remove(self, x)` (statements:
+      `Stmt.baseCall`) act on it, `self[:]` (`Expr.sliceAll`) and `list(self)` read it (new lists).  The receiver is taken to be
+      an instance of EXACTLY that class (a subclass could override the methods), and the class to leave item access,
+      iteration and attribute assignment to `list` / `object` (the translator checks it);
+    * an element of a collection is the value `PyV.ancestor u`: an `AdvancedTag` identified by a number — here its uid, as in
+      the hand model (`Model/Coll.lean`).  `x.uid` and `x.getUid()` are that number (`int`), `==` between two elements (what
+      `list.remove` and `in` use) is equality of the numbers (`pyEqV`): `AdvancedTag.__eq__` compares the uids
+      (`Ident.Elem.eq` of the hand model), for two objects of the same class.  The translator checks that `getUid` and `__eq__`
+      have exactly those bodies; that uids are unique per element (uuid4) is outside;
+    * `set`: a duplicate-free list of hashable model values (`Val.set`, `Field.set`); `set()`, `x in s`, `s.add(x)`,
+      `s.remove(x)` (`KeyError` when absent; statements on a field of `self`);
+    * the methods of the class are in `Ctx.meths` by name, as functions from the receiver's fields and the arguments to the
+      fields afterwards and the result.  `methIn` builds that table from the dump in DEPENDENCY order: a method sees the
+      methods before it only (no recursion; a name outside the table is an `AttributeError`, never a value).  Three ways to
+      call: `x.m(args)` as a statement (`Stmt.varCall` on a variable holding an object: the variable holds what the method
+      left, also when it raises); the bound method `x.m` as a value (`Expr.boundMeth`, `Val.bound x m`: it NAMES the variable —
+      Python's bound method holds the object, which is the same as long as the variable is not rebound: the translator checks
+      that it is bound exactly once, before), called in an expression (`callBound`: the method must leave the object as it is,
+      or the call is `unsupported`); `C(args)` (`Expr.construct`: `__init__` on a new object without fields; it must return
+      `None`).  Arguments are copied in: a method that changed (or rebound) a parameter holding a mutable object is
+      refused (`callMeth`, guard `argsKept`), as is a bound method passed as an argument or returned;
+    * a field of the receiver with the name of a method would hide it in Python: such a call is `unsupported`.
+
+  Extension for `SpecialAttributes.StyleAttribute` (the tie is `Props/C10Code.lean`).  Further assumptions:
+
+    * the class overrides dot access; `self.f` is the plain attribute for the names in its `RESERVED_ATTRIBUTES` only, and the
+      translator refuses any other `self.f` in a dumped method — so `obj fields` is the meaning here too;
+    * `x = self.f` (`Stmt.alias`) gives the object in the field a second name: `Val.ref o f` NAMES the field; reading `x`
+      (`Expr.avar`) reads the field as it is then, `x[k] = v` / `del x[k]` (`Stmt.setItemRef/delItemRef`) change the dict in the
+      field.  That is Python's meaning as long as the field itself is not assigned meanwhile: the translator checks that the
+      function does not assign it and that `x` is bound once, at the top level, before its uses;
+    * `[e for a, b in d.items()]` (`Expr.compItems`): `e` is evaluated for the pairs of the dict in order, `a` and `b` bound in
+      an environment of their own (they do not leak; the translator checks they are used nowhere else);
+    * `a + b` on two texts is concatenation; `c in text` for a one-character text `c`; `text.startswith(prefix)`;
+    * `object.__getattribute__(self, n)` (`Expr.objAttr`) is the field named by the text `n` (a method or class attribute
+      of that name is NOT found: `AttributeError`); `object.__setattr__(self, n, v)` is `Expr.outside`: not modelled, an error;
+    * `self._ensureHtmlAttribute()` is a parameter (`Ctx.selfMeth`): it writes the attribute store of the tag the style
+      belongs to, not the style object (the translator checks its exact body).
 -/
 import AHP.Model.Basic
 import AHP.Model.Conv
@@ -80,6 +123,7 @@ inductive Field where
   | list (vs : List PyV)           -- a Python list of model values
   | dict (kvs : List (PyV × PyV))  -- a dict: insertion-ordered association list
   | lock (held : Bool)             -- a threading.Lock
+  | set (vs : List PyV)            -- a set of hashable model values (no duplicates; kept in insertion order)
   deriving DecidableEq, Repr, Inhabited
 
 inductive Val where
@@ -95,6 +139,9 @@ inductive Val where
   | lock (held : Bool)             -- a threading.Lock
   | caught (e : PyErr)             -- the exception object bound by `except T as name`
   | obj (fields : List (String × Field))   -- `self`: an object with attributes
+  | set (vs : List PyV)            -- a Python set of hashable model values
+  | bound (o m : String)           -- the bound method `o.m` of the object that the local variable `o` holds
+  | ref (o f : String)             -- a second name of the object in the field `f` of the object that the variable `o` holds
   deriving DecidableEq, Repr, Inhabited
 
 def Field.toVal : Field → Val
@@ -102,12 +149,14 @@ def Field.toVal : Field → Val
   | .list vs => .list vs
   | .dict kvs => .dict kvs
   | .lock h => .lock h
+  | .set vs => .set vs
 
 def Val.toField : Val → Option Field
   | .py v => some (.py v)
   | .list vs => some (.list vs)
   | .dict kvs => some (.dict kvs)
   | .lock h => some (.lock h)
+  | .set vs => some (.set vs)
   | _ => none
 
 /-- Objects that can change after they were made (so that two names for one of them matter). -/
@@ -116,6 +165,7 @@ def Val.mutable : Val → Bool
   | .dict _ => true
   | .lock _ => true
   | .obj _ => true
+  | .set _ => true
   | _ => false
 
 def unsupported (what : String) : PyErr := .other ("unsupported:" ++ what)
@@ -126,6 +176,7 @@ def Val.truthy : Val → Bool
   | .tuple vs => !vs.isEmpty
   | .list vs => !vs.isEmpty
   | .dict kvs => !kvs.isEmpty
+  | .set vs => !vs.isEmpty
   | _ => true
 
 /-- `a == b` on model values. -/
@@ -160,6 +211,9 @@ def pyEq (x y : Val) : Except PyErr Bool :=
   | .lock _ => (match y with | .lock _ => .error (unsupported "==") | _ => .ok false)
   | .caught _ => (match y with | .caught _ => .error (unsupported "==") | _ => .ok false)
   | .obj _ => (match y with | .obj _ => .error (unsupported "==") | _ => .ok false)
+  | .set _ => (match y with | .set _ => .error (unsupported "==") | _ => .ok false)
+  | .bound _ _ => (match y with | .bound _ _ => .error (unsupported "==") | _ => .ok false)
+  | .ref _ _ => .error (unsupported "==")
 
 /-- Objects of which there is exactly one: `is` is then structural equality of the representation. -/
 def Val.unique : Val → Bool
@@ -200,7 +254,18 @@ def hashable : PyV → Bool
   | .bool _ => true
   | _ => false
 
-/-- `x in c`: `c` a tuple or list (any element equal to `x`), or a dict (any key equal to the hashable `x`). -/
+/-- membership in a set (of hashable values): some member equal to `v` -/
+def sMem (vs : List PyV) (v : PyV) : Bool := vs.any (fun e => pyEqV v e)
+
+/-- `s.add(v)` -/
+def sAdd (vs : List PyV) (v : PyV) : List PyV := if sMem vs v then vs else vs ++ [v]
+
+/-- `s.remove(v)`: without the member equal to `v` (there is at most one in a set); `none` when there is none (`KeyError`). -/
+def sRemove (v : PyV) : List PyV → Option (List PyV)
+  | [] => none
+  | a :: r => if pyEqV v a then some r else (match sRemove v r with | some r' => some (a :: r') | none => none)
+
+/-- `x in c`: `c` a tuple or list (any element equal to `x`), or a dict / set (any key / member equal to the hashable `x`). -/
 def pyIn (x c : Val) : Except PyErr Bool :=
   match c with
   | .tuple vs => (match x with
@@ -214,6 +279,13 @@ def pyIn (x c : Val) : Except PyErr Bool :=
   | .dict kvs => (match x with
       | .py a => if hashable a then .ok (kvs.any (fun e => pyEqV a e.1)) else .error (unsupported "in")
       | _ => .error (unsupported "in"))
+  | .set vs => (match x with
+      | .py a => if hashable a then .ok (sMem vs a) else .error (unsupported "in")
+      | _ => .error (unsupported "in"))
+  | .py (.str s) => (match x with
+      | .py (.str [c]) => .ok (s.contains c)
+      | .py (.str _) => .error (unsupported "in: a text of another length than one in a text")
+      | _ => .error .typeError)
   | _ => .error (unsupported "in")
 
 inductive CmpOp where
@@ -273,6 +345,9 @@ def getAttr (x : Val) (a : String) : Except PyErr Val :=
     | .lock _ => .ok (.cls "lock")
     | .caught e => .ok (.excType (errName e))
     | .obj _ => .ok (.cls "object")
+    | .set _ => .ok (.cls "set")
+    | .bound _ _ => .ok (.cls "method")
+    | .ref _ _ => .error (unsupported "attribute of an alias")
   else
     match x with
     | .obj fs => (match fs.lookup a with | some fv => .ok fv.toVal | none => .error (.other "AttributeError"))
@@ -281,6 +356,10 @@ def getAttr (x : Val) (a : String) : Except PyErr Val :=
         match x with
         | .elem e => .ok (.py (.str e.tag.toList))
         | _ => .error (unsupported "attribute tagName")
+      else if a = "uid" then
+        match x with
+        | .py (.ancestor u) => .ok (.py (.int u))
+        | _ => .error (unsupported "attribute uid")
       else .error (unsupported ("attribute " ++ a))
 
 /-- `s.replace(a, b)` for a non-empty `a` (left to right, non-overlapping), with fuel = length of `s`. -/
@@ -365,6 +444,10 @@ def callMethod (x : Val) (m : String) (args : List Val) : Except PyErr Val :=
        | [.list vs] => (match strItems vs with | some ws => .ok (.py (.str (joinWith s ws))) | none => .error .typeError)
        | [.tuple vs] => (match strItems vs with | some ws => .ok (.py (.str (joinWith s ws))) | none => .error .typeError)
        | _ => .error (unsupported "join of something else than a list"))
+    else if m = "startswith" then
+      (match args with
+       | [.py (.str a)] => .ok (.py (.bool (a.isPrefixOf s)))
+       | _ => .error (unsupported "startswith of something else than a text"))
     else if m = "replace" then
       (match args with
        | [.py (.str a), .py (.str b)] =>
@@ -389,7 +472,14 @@ def callMethod (x : Val) (m : String) (args : List Val) : Except PyErr Val :=
        | [.py k, .py d] => if hashable k then .ok (.py ((dGet kvs k).getD d)) else .error (unsupported "dict key")
        | _ => .error (unsupported "dict.get"))
     else .error (unsupported ("method " ++ m))
+  | .py (.ancestor u) =>
+    if m = "getUid" then
+      (match args with
+       | [] => .ok (.py (.int u))
+       | _ => .error .typeError)
+    else .error (.other "AttributeError")
   | .list _ => .error (unsupported ("method " ++ m ++ " of a list in an expression"))
+  | .set _ => .error (unsupported ("method " ++ m ++ " of a set in an expression"))
   | .lock _ => .error (unsupported ("method " ++ m ++ " of a lock in an expression"))
   | .obj _ => .error (unsupported ("method " ++ m ++ " of an object"))
   | _ => .error (.other "AttributeError")
@@ -421,20 +511,52 @@ def mutCall (fv : Field) (m : String) (args : List Val) : Except PyErr Field :=
        | [] => if h then .ok (.lock false) else .error (.other "RuntimeError")
        | _ => .error .typeError)
     else .error (unsupported ("statement method " ++ m))
+  | .set vs =>
+    if m = "add" then
+      (match args with
+       | [.py v] => if hashable v then .ok (.set (sAdd vs v)) else .error (unsupported "set member")
+       | [_] => .error (unsupported "set of objects")
+       | _ => .error .typeError)
+    else if m = "remove" then
+      (match args with
+       | [.py v] =>
+         if hashable v then (match sRemove v vs with | some vs' => .ok (.set vs') | none => .error .keyError)
+         else .error (unsupported "set member")
+       | [_] => .error (unsupported "set of objects")
+       | _ => .error .typeError)
+    else .error (unsupported ("statement method " ++ m))
   | _ => .error (unsupported ("statement method " ++ m))
+
+/-- The name under which an object of a class derived from `list` keeps the list it IS (no Python attribute has that name). -/
+def listPart : String := "[list]"
+
+/-- `list.m(o, args)` as a statement, for an object `o` of a class derived from `list`: the new content of its list part
+(`cur`: the present one).  `list.__init__(o)` makes it the empty list; `append` / `remove` are the list's own. -/
+def baseCall (cur : Option Field) (m : String) (args : List Val) : Except PyErr Field :=
+  if m = "__init__" then
+    (match args with
+     | [] => .ok (.list [])
+     | _ => .error (unsupported "list.__init__ with arguments"))
+  else
+    match cur with
+    | some (.list vs) => if m = "append" || m = "remove" then mutCall (.list vs) m args else .error (unsupported ("list." ++ m))
+    | _ => .error (unsupported "not a list object")
 
 inductive BinOp where
   | add | sub | mul
   deriving DecidableEq, Repr, Inhabited
 
-/-- `a + b`, `a - b`, `a * b`: between numbers only (concatenation and repetition are refused). -/
+/-- `a + b`, `a - b`, `a * b` between numbers; `a + b` between texts (concatenation); anything else is refused. -/
 def pyBinop (op : BinOp) (x y : Val) : Except PyErr Val :=
   match numOf x with
   | some a =>
     (match numOf y with
      | some b => .ok (.py (.int (match op with | .add => a + b | .sub => a - b | .mul => a * b)))
      | none => .error (unsupported "arithmetic on something else than numbers"))
-  | none => .error (unsupported "arithmetic on something else than numbers")
+  | none =>
+    (match op, x, y with
+     | .add, .py (.str a), .py (.str b) => .ok (.py (.str (a ++ b)))
+     | _, _, _ => .error (unsupported "arithmetic on something else than numbers"))
 
 /-- Item `i` of a sequence, negative `i` counting from the end; `none`: `IndexError`. -/
 def seqItem (l : List α) (i : Int) : Option α :=
@@ -475,6 +597,15 @@ def pySlice (front : Bool) (x n : Val) : Except PyErr Val :=
      | _ => .error (unsupported "slice"))
   | _ => .error (unsupported "slice bound")
 
+/-- `x[:]`: a new list with the items of a list, or of the list that an object of a class derived from `list` is. -/
+def pySliceAll (x : Val) : Except PyErr Val :=
+  match x with
+  | .list vs => .ok (.list vs)
+  | .tuple vs => .ok (.tuple vs)
+  | .py (.str s) => .ok (.py (.str s))
+  | .obj fs => (match fs.lookup listPart with | some (.list vs) => .ok (.list vs) | _ => .error (unsupported "slice"))
+  | _ => .error (unsupported "slice")
+
 /-- `len(x)` -/
 def pyLen : Val → Except PyErr Val
   | .py (.str s) => .ok (.py (.int s.length))
@@ -482,6 +613,7 @@ def pyLen : Val → Except PyErr Val
   | .list vs => .ok (.py (.int vs.length))
   | .tuple vs => .ok (.py (.int vs.length))
   | .dict kvs => .ok (.py (.int kvs.length))
+  | .set vs => .ok (.py (.int vs.length))
   | .py .none => .error .typeError
   | .py (.int _) => .error .typeError
   | .py (.bool _) => .error .typeError
@@ -541,6 +673,7 @@ def builtin (parseInt : Str → Except PyErr Int) (f : String) (args : List Val)
     | [.py (.str s)] => .ok (.list (s.map (fun c => .str [c])))
     | [.list vs] => .ok (.list vs)
     | [.tuple vs] => .ok (.list vs)
+    | [.obj fs] => (match fs.lookup listPart with | some (.list vs) => .ok (.list vs) | _ => .error (unsupported "list"))
     | _ => .error (unsupported "list")
   else .error (.other "NameError")
 
@@ -570,6 +703,14 @@ inductive Expr where
   | newList                                             -- []
   | newDict                                             -- {}
   | newLock                                             -- threading.Lock()
+  | newSet                                              -- set()
+  | sliceAll (e : Expr)                                 -- e[:]
+  | construct (cls : String) (args : List Expr)         -- C(args) for the class C whose methods are in `Ctx.meths`
+  | boundMeth (o m : String)                            -- o.m as a value, o a local variable, m a method of the class
+  | avar (x : String)                                   -- a local variable that is a second name of a field of `self`
+  | compItems (k v : String) (elt d : Expr)             -- [elt for k, v in d.items()]
+  | objAttr (o : String) (n : Expr)                     -- object.__getattribute__(o, n): the plain attribute named by `n`
+  | outside (what : String)                             -- a call the interpreter does not model: evaluates to an error
   deriving Repr, Inhabited
 
 /-- Does the expression CREATE the list it evaluates to (so that no other name reaches the same object)? -/
@@ -579,6 +720,10 @@ def Expr.makesNew : Expr → Bool
   | .newList => true
   | .newDict => true
   | .newLock => true
+  | .newSet => true
+  | .sliceAll _ => true
+  | .construct _ _ => true          -- (a constructor that kept one of its mutable arguments is refused: `callMeth`)
+  | .compItems .. => true
   | .call f _ => f = "list"         -- the builtin `list(x)` (the guard `aliasOK` checks that no function of the module hides it)
   | .meth _ m _ => m = "split"      -- `text.split(sep)` (a method of `self` never returns a mutable object: `eval`)
   | _ => false
@@ -607,6 +752,10 @@ inductive Stmt where
   | delItem (o f : String) (k : Expr)                   -- del o.f[k]
   | varCall (x m : String) (args : List Expr)           -- x.m(args) as a statement, x a local variable (a list)
   | setItemVar (x : String) (k v : Expr)                -- x[k] = v, x a local variable (a dict)
+  | baseCall (o m : String) (args : List Expr)          -- list.m(o, args) as a statement (`o` is `self`, its class derives from list)
+  | alias (x o f : String)                              -- x = o.f, making x a second name of the object in the field
+  | setItemRef (x : String) (k v : Expr)                -- x[k] = v, x such a second name (of a dict)
+  | delItemRef (x : String) (k : Expr)                  -- del x[k], x such a second name (of a dict)
 inductive Handler where
   | mk (type : Option String) (body : List Stmt)        -- `except:` (none) / `except T:` (some T)
   | mkAs (type : String) (name : String) (body : List Stmt)   -- `except T as name:`
@@ -667,6 +816,10 @@ def iterItems : Val → Option (List Val)
   | .dict kvs => some (kvs.map (fun p => .py p.1))
   | _ => none
 
+/-- What a method of the class does, given the fields of the receiver and the arguments: the fields afterwards (`none`: the
+receiver's variable no longer holds an object) and the result of the call. -/
+abbrev MethSem := List (String × Field) → List Val → Option (List (String × Field)) × Except PyErr Val
+
 structure Ctx where
   parseInt : Str → Except PyErr Int
   /-- the functions of the module that are visible: positional arguments, keyword arguments -/
@@ -677,6 +830,10 @@ structure Ctx where
   globals : String → Option Val := fun _ => none
   /-- methods of `self` that are not dumped (static methods around primitives), by name -/
   selfMeth : String → Option (List Val → Except PyErr Val) := fun _ => none
+  /-- the class whose dumped methods are in `meths` (its name is its constructor) -/
+  cls : String := ""
+  /-- the dumped methods of that class that are visible (`methIn`: those EARLIER in the dependency order), by name -/
+  meths : String → Option MethSem := fun _ => none
 
 /-- `x = v` in an association list (the local variables; the fields of an object): an existing binding is replaced where
 it is, a new one is added at the end. -/
@@ -706,6 +863,91 @@ def toTuple : List Val → Except PyErr Val
   | vs => if vs.all (fun v => match v with | .py _ => true | _ => false)
           then .ok (.tuple (vs.filterMap (fun v => match v with | .py p => some p | _ => none)))
           else .error (unsupported "tuple of objects")
+
+/-- the values of a comprehension, in order; the first error wins; the items must be model values -/
+def collectPy : List (Except PyErr Val) → Except PyErr (List PyV)
+  | [] => .ok []
+  | .error e :: _ => .error e
+  | .ok (.py v) :: r => (match collectPy r with | .ok vs => .ok (v :: vs) | .error e => .error e)
+  | .ok _ :: _ => .error (unsupported "list of objects")
+
+/-- `d[k] = v` for the dict in the field `o.f` -/
+def setItemAt (env : Env) (o f : String) (kv vv : Val) : Env × Res :=
+  match getField env o f with
+  | .error err => (env, .exc err)
+  | .ok (.dict kvs) =>
+    (match kv, vv with
+     | .py k', .py v' =>
+       if hashable k' then ((putField env o f (.dict (dSet kvs k' v'))).1, .next)
+       else (env, .exc (unsupported "dict key"))
+     | _, _ => (env, .exc (unsupported "dict of objects")))
+  | .ok _ => (env, .exc (unsupported "item assignment"))
+
+/-- `del d[k]` for the dict in the field `o.f` (`KeyError` when absent) -/
+def delItemAt (env : Env) (o f : String) (kv : Val) : Env × Res :=
+  match getField env o f with
+  | .error err => (env, .exc err)
+  | .ok (.dict kvs) =>
+    (match kv with
+     | .py k' =>
+       if hashable k' then
+         (match dGet kvs k' with
+          | some _ => ((putField env o f (.dict (dDel kvs k'))).1, .next)
+          | none => (env, .exc .keyError))
+       else (env, .exc (unsupported "dict key"))
+     | _ => (env, .exc (unsupported "dict key")))
+  | .ok _ => (env, .exc (unsupported "item deletion"))
+
+def Val.isBound : Val → Bool
+  | .bound _ _ => true
+  | _ => false
+
+/-- `C(args)`: a new object (no fields yet) on which the dumped `__init__` runs; `__init__` must return `None`. -/
+def construct (cx : Ctx) (c : String) (vs : List Val) : Except PyErr Val :=
+  if c = cx.cls then
+    if vs.any Val.isBound then .error (unsupported "a bound method as an argument") else
+    match cx.meths "__init__" with
+    | some g =>
+      (match g [] vs with
+       | (some fs, .ok (.py .none)) => .ok (.obj fs)
+       | (some _, .ok _) => .error .typeError
+       | (none, .ok _) => .error (unsupported "constructor")
+       | (_, .error e) => .error e)
+    | none => .error (unsupported "constructor")
+  else .error (.other "NameError")
+
+/-- Calling the bound method `o.m` in an EXPRESSION: the method runs on the object the variable `o` holds NOW; it must leave
+the object as it is (a change would be lost) and must not return a mutable object (it could be a part of the receiver). -/
+def callBound (cx : Ctx) (env : Env) (o m : String) (vs : List Val) : Except PyErr Val :=
+  match env.lookup o with
+  | some (.obj fs) =>
+    if vs.any Val.isBound then .error (unsupported "a bound method as an argument") else
+    (match cx.meths m with
+     | some g =>
+       (match g fs vs with
+        | (some fs', r) =>
+          if fs' = fs then
+            (match r with
+             | .ok v => if v.mutable then .error (unsupported "a method returning a mutable object in an expression") else .ok v
+             | .error e => .error e)
+          else .error (unsupported "a method called in an expression changed its object")
+        | (none, _) => .error (unsupported "a method lost its object"))
+     | none => .error (.other "AttributeError"))
+  | _ => .error (unsupported "bound method of something else than an object")
+
+/-- `x.m(args)` as a STATEMENT, `x` holding an object with the fields `fs`: the dumped method `m` runs on it and the variable
+holds what the method left (also when the method raises: what it did before is done). -/
+def objCall (cx : Ctx) (env : Env) (x : String) (fs : List (String × Field)) (m : String) (vs : List Val) : Env × Res :=
+  if (fs.lookup m).isSome then (env, .exc (unsupported "an attribute that hides a method"))
+  else if vs.any Val.isBound then (env, .exc (unsupported "a bound method as an argument"))
+  else
+    match cx.meths m with
+    | none => (env, .exc (.other "AttributeError"))
+    | some g =>
+      (match g fs vs with
+       | (some fs', .ok _) => (assocSet env x (.obj fs'), .next)
+       | (some fs', .error e) => (assocSet env x (.obj fs'), .exc e)
+       | (none, _) => (env, .abort "a method lost its object"))
 
 mutual
 def eval (cx : Ctx) (env : Env) : Expr → Except PyErr Val
@@ -740,7 +982,10 @@ def eval (cx : Ctx) (env : Env) : Expr → Except PyErr Val
   | .callv f args =>
     (match eval cx env f with
      | .error e => .error e
-     | .ok fv => (match evalList cx env args with | .error e => .error e | .ok vs => callValue fv vs))
+     | .ok fv =>
+       (match evalList cx env args with
+        | .error e => .error e
+        | .ok vs => (match fv with | .bound o m => callBound cx env o m vs | _ => callValue fv vs)))
   | .attr e a => (match eval cx env e with | .error err => .error err | .ok x => getAttr x a)
   | .meth e m args =>
     (match eval cx env e with
@@ -778,6 +1023,37 @@ def eval (cx : Ctx) (env : Env) : Expr → Except PyErr Val
   | .newList => .ok (.list [])
   | .newDict => .ok (.dict [])
   | .newLock => .ok (.lock false)
+  | .newSet => .ok (.set [])
+  | .sliceAll e => (match eval cx env e with | .error err => .error err | .ok x => pySliceAll x)
+  | .construct c args => (match evalList cx env args with | .error err => .error err | .ok vs => construct cx c vs)
+  | .boundMeth o m =>
+    (match env.lookup o with
+     | some (.obj fs) =>
+       if (cx.meths m).isSome && (fs.lookup m).isNone then .ok (.bound o m) else .error (.other "AttributeError")
+     | some _ => .error (unsupported "bound method of something else than an object")
+     | none => .error (.other "UnboundLocalError"))
+  | .avar x =>
+    (match env.lookup x with
+     | some (.ref o f) => (match getField env o f with | .ok fv => .ok fv.toVal | .error err => .error err)
+     | some _ => .error (unsupported "a variable that is not a second name of a field")
+     | none => .error (.other "UnboundLocalError"))
+  | .compItems k v elt d =>
+    (match eval cx env d with
+     | .error err => .error err
+     | .ok (.dict kvs) =>
+       (match collectPy (kvs.map (fun p => eval cx (assocSet (assocSet env k (.py p.1)) v (.py p.2)) elt)) with
+        | .ok vs => .ok (.list vs)
+        | .error err => .error err)
+     | .ok _ => .error (unsupported "comprehension over something else than the items of a dict"))
+  | .objAttr o n =>
+    (match eval cx env n with
+     | .error err => .error err
+     | .ok (.py (.str a)) =>
+       (match env.lookup o with
+        | some (.obj fs) => getAttr (.obj fs) (String.ofList a)
+        | _ => .error (unsupported "object.__getattribute__ of something else than self"))
+     | .ok _ => .error .typeError)
+  | .outside what => .error (unsupported what)
 def evalList (cx : Ctx) (env : Env) : List Expr → Except PyErr (List Val)
   | [] => .ok []
   | e :: es =>
@@ -892,6 +1168,7 @@ def execS (cx : Ctx) (env : Env) : Stmt → Env × Res
      | .ok vs =>
        (match env.lookup x with
         | none => (env, .exc (.other "UnboundLocalError"))
+        | some (.obj fs) => objCall cx env x fs m vs
         | some xv =>
           (match xv.toField with
            | none => (env, .exc (unsupported "statement method of an object"))
@@ -915,6 +1192,40 @@ def execS (cx : Ctx) (env : Env) : Stmt → Env × Res
                 else (env, .exc (unsupported "dict key"))
               | _, _ => (env, .exc (unsupported "dict of objects")))
            | some _ => (env, .exc (unsupported "item assignment")))))
+  | .baseCall o m args =>
+    (match evalList cx env args with
+     | .error err => (env, .exc err)
+     | .ok vs =>
+       (match env.lookup o with
+        | some (.obj fs) =>
+          (match baseCall (fs.lookup listPart) m vs with
+           | .error err => (env, .exc err)
+           | .ok fv' => ((putField env o listPart fv').1, .next))
+        | some _ => (env, .exc (unsupported "list method of something else than self"))
+        | none => (env, .exc (.other "UnboundLocalError"))))
+  | .alias x o f =>
+    (match getField env o f with
+     | .error err => (env, .exc err)
+     | .ok _ => (assocSet env x (.ref o f), .next))
+  | .setItemRef x k v =>
+    (match eval cx env v with
+     | .error err => (env, .exc err)
+     | .ok vv =>
+       (match eval cx env k with
+        | .error err => (env, .exc err)
+        | .ok kv =>
+          (match env.lookup x with
+           | some (.ref o f) => setItemAt env o f kv vv
+           | some _ => (env, .exc (unsupported "a variable that is not a second name of a field"))
+           | none => (env, .exc (.other "UnboundLocalError")))))
+  | .delItemRef x k =>
+    (match eval cx env k with
+     | .error err => (env, .exc err)
+     | .ok kv =>
+       (match env.lookup x with
+        | some (.ref o f) => delItemAt env o f kv
+        | some _ => (env, .exc (unsupported "a variable that is not a second name of a field"))
+        | none => (env, .exc (.other "UnboundLocalError"))))
 def execL (cx : Ctx) (env : Env) : List Stmt → Env × Res
   | [] => (env, .next)
   | s :: ss =>
@@ -989,6 +1300,33 @@ def runMeth (cx : Ctx) (f : Fun) (self : List (String × Field)) (args : List Va
       | (s, _) :: _ => (match r.1.lookup s with | some (.obj fs) => some fs | _ => none)
       | [] => none),
      resultOf r.2)
+
+/-- Do the parameters that received a mutable object still hold it, unchanged, in the environment `env` the call ended
+with?  (Arguments are copied in: a callee that changed one would not be seen by the caller.) -/
+def argsKept : List (String × Option Expr) → List Val → Env → Bool
+  | (x, _) :: ps, v :: vs, env => (!v.mutable || decide (env.lookup x = some v)) && argsKept ps vs env
+  | _, _, _ => true
+
+/-- What the method table holds: `runMeth`, refused when the method changed (or rebound) a mutable argument, or returns a
+bound method (it names a variable of the callee). -/
+def callMeth (cx : Ctx) (f : Fun) (self : List (String × Field)) (args : List Val) :
+    Option (List (String × Field)) × Except PyErr Val :=
+  match bindArgs cx f.params (.obj self :: args) [] with
+  | some (.ok env) =>
+    if argsKept (f.params.drop 1) args (execL cx env f.body).1 then
+      (match runMeth cx f self args with
+       | (s', .ok v) => if v.isBound then (s', .error (unsupported "a bound method as a result")) else (s', .ok v)
+       | r => r)
+    else ((runMeth cx f self args).1, .error (unsupported "a method changed a mutable argument"))
+  | _ => runMeth cx f self args
+
+/-- The dumped methods of a class given LATEST IN THE DEPENDENCY ORDER FIRST: a method sees the methods before it
+(`base`: everything else the methods run in). -/
+def methIn (base : Ctx) : List Fun → String → Option MethSem
+  | [], _ => none
+  | f :: earlier, name =>
+    if f.name = name then some (callMeth { base with meths := methIn base earlier } f)
+    else methIn base earlier name
 
 /-- Look a function up in a module given LATEST DEFINITION FIRST: its body sees the definitions before it. -/
 def callIn (parseInt : Str → Except PyErr Int) :
